@@ -289,8 +289,20 @@ func placeInitial(t *rapid.T, o GenOpts, w *World) {
 		if len(wl.SubGroups) == 0 && chance(t, "partial", 30) {
 			want = rapid.IntRange(int(wl.MinMember), len(wl.Pods)).Draw(t, "nrunning")
 		}
+		// a workload with several pod sets may have lost all pods of some of them (they are pending again)
+		skipSet := map[string]bool{}
+		if len(wl.SubGroups) > 1 && chance(t, "setdown", 40) {
+			for k, sg := range wl.SubGroups {
+				if k > 0 && chance(t, "setdownk", 60) {
+					skipSet[sg.Name] = true
+				}
+			}
+		}
 		for pi := 0; pi < want; pi++ {
 			p := &wl.Pods[pi]
+			if skipSet[p.SubGroup] {
+				continue
+			}
 			start := rapid.IntRange(0, len(w.Nodes)-1).Draw(t, "startnode")
 			for k := 0; k < len(w.Nodes); k++ {
 				n := w.Nodes[(start+k)%len(w.Nodes)]
@@ -380,8 +392,9 @@ func placeInitial(t *rapid.T, o GenOpts, w *World) {
 			for pi := range placed {
 				cnt[wl.Pods[pi].SubGroup]++
 			}
+			okGang = len(placed) > 0
 			for _, sg := range wl.SubGroups {
-				if cnt[sg.Name] < int(sg.MinMember) {
+				if cnt[sg.Name] < int(sg.MinMember) && !skipSet[sg.Name] {
 					okGang = false
 				}
 			}
